@@ -25,6 +25,12 @@ func debugDump(repo, scope string) {
 		for _, f := range scopeNames(c, pe.scope) {
 			fmt.Println("scope file", f)
 		}
+	case "C14":
+		pe.scope = scopeRenderers(c)
+		pe.run()
+		for _, f := range scopeNames(c, pe.scope) {
+			fmt.Println("scope file", f)
+		}
 	default:
 		pe.run(strings.Split(scope, ",")...)
 	}
